@@ -73,6 +73,14 @@ def reconstruct(repo, out_dir):
         'Zone\tVerif/Odd\t0:13\tVerifC\tO%sO\t2004\tFeb\t29\t23:59',
         '\t\t\t0:00\t0:20\tOO',
     ]
+    # names that differ only in '-' / '_' (the compiler maps both to '_' in identifiers and must keep exactly
+    # one of each colliding group, always the same one), among themselves and against a stock name
+    zones += [
+        'Zone\tVerif/Abc-Def\t1:00\t-\tVA',
+        'Zone\tVerif/Abc_Def\t2:00\t-\tVB',
+        'Zone\tAmerica/Port_au_Prince\t-5:00\t-\tVP',
+    ]
+    links += ['Link\tVerif/Twin1\tVerif/Link-A', 'Link\tVerif/Twin2\tVerif/Link_A']
     links += ['Link\tVerif/Twin1\tVerif/Alias1', 'Link\tVerif/Twin1\tVerif/Alias2', 'Link\tVerif/Multi\tVerif/AliasM',
               'Link\tVerif/Nowhere\tVerif/Dangling']
     os.makedirs(out_dir, exist_ok=True)
